@@ -85,7 +85,8 @@ CreateOps(n, ipp) == DomSepIPP(n) \o RoundOps(ipp.L, ipp.R, 1)
 (* us: challenges of the rounds, in creation order.  batch_inversion maps  *)
 (* 0 to 0, and allinv multiplies the non-zero inverses only.               *)
 (***************************************************************************)
-ShapeOk(n, nL, nR) == nL < 32 /\ n = Pow2(nL) /\ nR = nL
+\* (TLC integers are 32-bit: 2^31 is out of range, and no modelled n reaches it)
+ShapeOk(n, nL, nR) == nL < 32 /\ (IF nL <= 30 THEN n = Pow2(nL) ELSE FALSE) /\ nR = nL
 
 InvOrZero(x) == IF x = 0 THEN 0 ELSE Finv(x)
 
